@@ -74,6 +74,8 @@ type Config struct {
 	PMulti      float64   `json:"p_multi"`
 	PRace       float64   `json:"p_race"`
 	PEdge       float64   `json:"p_edge_amount"`
+	PGhost      float64   `json:"p_ghost"`      // operations around identifiers of issue attempts that did not commit
+	PGhostMake  float64   `json:"p_ghost_make"` // planned issue + failing second message, then probing
 }
 
 type params struct {
@@ -133,6 +135,10 @@ type Module struct {
 	key     storetypes.StoreKey
 	planned []*engine.TxPlan
 	fresh   int
+	// identifiers of issue attempts that did not commit (ghost.go)
+	ghosts   []ghost
+	ghostMin map[string]bool
+	ghostSym map[string]bool
 	// per block
 	conv        map[string]*convNote // contract hex ("" = unknown) -> conversion outcomes of this block
 	sawRejected bool
@@ -144,7 +150,7 @@ func New() *Module {
 	return &Module{toks: map[string]*tok{}, byMin: map[string]*tok{}, burnt: map[string]*big.Int{}, modHold: map[string]*big.Int{},
 		erc: map[string]map[string]*big.Int{}, faults: map[string]faultSpec{}, faultHeight: map[string]int64{},
 		fired: map[string]string{}, opKey: map[int]string{}, unsupported: map[string]bool{},
-		pairs: map[string]pairCfg{}, conv: map[string]*convNote{}}
+		pairs: map[string]pairCfg{}, conv: map[string]*convNote{}, ghostMin: map[string]bool{}, ghostSym: map[string]bool{}}
 }
 
 func (m *Module) Name() string { return Name }
@@ -335,6 +341,10 @@ func (m *Module) Configure(w *engine.World, r *engine.Rand) any {
 	}
 	c.PRace = 0.2 + 0.4*r.Float()
 	c.PEdge = 0.3 + 0.4*r.Float()
+	if r.Bool(0.8) {
+		c.PGhost = 0.02 + 0.1*r.Float()
+		c.PGhostMake = 0.01 + 0.04*r.Float()
+	}
 	return c
 }
 
@@ -626,6 +636,11 @@ func (m *Module) Gen(w *engine.World, r *engine.Rand) *engine.TxPlan {
 	if r.Bool(m.cfg.PParam) {
 		return m.genParams(w, r)
 	}
+	if r.Bool(m.cfg.PGhostMake) {
+		if tp := m.genGhostMaker(w, r); tp != nil {
+			return tp
+		}
+	}
 	op := m.genOp(w, r, -1)
 	if op == nil {
 		return nil
@@ -675,6 +690,11 @@ func (m *Module) genOp(w *engine.World, r *engine.Rand, forced int) *engine.Op {
 			return forced
 		}
 		return def
+	}
+	if r.Bool(m.cfg.PGhost) {
+		if op := m.genGhostOp(w, r, forced); op != nil {
+			return op
+		}
 	}
 	if r.Bool(pIssue) {
 		return m.genIssue(w, r, pick(r.Intn(nAct)))
